@@ -1,6 +1,409 @@
-// Builder call histories (C20): filled in with the history model.
-use crate::{Kvs, Toks};
+// Builder call histories (C20): the same step language as ocaml/driver.ml's parse_hist, executed on
+// the real builders: setters in the given order, owned/borrowed variants, PacketBuilder::from and a
+// one-member compound as wrappers.
+use crate::{guard, parse_rb, unhex, utf8, wres, Kvs, Obs, Toks, W};
+use rtcp_types::*;
 
-pub fn run_hist(_t: &mut Toks) -> Result<Kvs, String> {
-    Err("hist-not-implemented".to_string())
+struct ItemHist {
+    ty: u8,
+    value: String,
+    add_owned: bool,
+    ops: Vec<ItemOp>,
+}
+enum ItemOp {
+    Prefix(Vec<u8>),
+    IntoOwned,
+}
+enum RpsiOp {
+    Pt(u8),
+    Data(Vec<u8>, u8),
+    DataOwned(Vec<u8>, u8),
+}
+enum FciHist {
+    Nack(Vec<u16>),
+    Fir(Vec<(u32, u8)>),
+    Sli(Vec<(u16, u16, u8)>),
+    Rpsi(Vec<RpsiOp>),
+    Pli,
+}
+enum Op {
+    Pad(u8),
+    Ntp(u64),
+    Rtp(u32),
+    Pc(u32),
+    Oc(u32),
+    Rb(crate::RbCfg),
+    Subtype(u8),
+    Data(Vec<u8>),
+    Src(u32),
+    Reason(String),
+    ReasonOwned(String),
+    Chunk(u32, Vec<ItemHist>),
+    Count(u8),
+    Sender(u32),
+    Media(u32),
+}
+enum Init {
+    Sr(u32),
+    Rr(u32),
+    App(u32, String),
+    Bye,
+    Sdes,
+    Unk(u8, Vec<u8>),
+    Fb { transport: bool, owned: bool, fci: FciHist },
+}
+
+fn parse_fci_hist(t: &mut Toks) -> Result<FciHist, String> {
+    Ok(match t.next()? {
+        "nack" => {
+            let n: usize = t.num()?;
+            let mut v = vec![];
+            for _ in 0..n {
+                v.push(t.num()?);
+            }
+            FciHist::Nack(v)
+        }
+        "fir" => {
+            let n: usize = t.num()?;
+            let mut v = vec![];
+            for _ in 0..n {
+                v.push((t.num()?, t.num()?));
+            }
+            FciHist::Fir(v)
+        }
+        "sli" => {
+            let n: usize = t.num()?;
+            let mut v = vec![];
+            for _ in 0..n {
+                v.push((t.num()?, t.num()?, t.num()?));
+            }
+            FciHist::Sli(v)
+        }
+        "rpsi" => {
+            let n: usize = t.num()?;
+            let mut v = vec![];
+            for _ in 0..n {
+                v.push(match t.next()? {
+                    "pt" => RpsiOp::Pt(t.num()?),
+                    "data" => RpsiOp::Data(t.hex()?, t.num()?),
+                    "dataown" => RpsiOp::DataOwned(t.hex()?, t.num()?),
+                    s => return Err(format!("bad rpsi op {}", s)),
+                });
+            }
+            FciHist::Rpsi(v)
+        }
+        "pli" => FciHist::Pli,
+        s => return Err(format!("bad fci hist {}", s)),
+    })
+}
+
+fn parse_item_hist(t: &mut Toks) -> Result<ItemHist, String> {
+    let ty = t.num()?;
+    let value = utf8(t.hex()?)?;
+    let add_owned = match t.next()? {
+        "o" => true,
+        "b" => false,
+        s => return Err(format!("bad add mode {}", s)),
+    };
+    let n: usize = t.num()?;
+    let mut ops = vec![];
+    for _ in 0..n {
+        ops.push(match t.next()? {
+            "prefix" => ItemOp::Prefix(t.hex()?),
+            "own" => ItemOp::IntoOwned,
+            s => return Err(format!("bad item op {}", s)),
+        });
+    }
+    Ok(ItemHist { ty, value, add_owned, ops })
+}
+
+fn parse_ops(t: &mut Toks) -> Result<Vec<Op>, String> {
+    let mut ops = vec![];
+    loop {
+        ops.push(match t.next()? {
+            "end" => break,
+            "pad" => Op::Pad(t.num()?),
+            "ntp" => Op::Ntp(t.num()?),
+            "rtp" => Op::Rtp(t.num()?),
+            "pc" => Op::Pc(t.num()?),
+            "oc" => Op::Oc(t.num()?),
+            "rb" => Op::Rb(parse_rb(t)?),
+            "subtype" => Op::Subtype(t.num()?),
+            "data" => Op::Data(t.hex()?),
+            "src" => Op::Src(t.num()?),
+            "reason" => Op::Reason(utf8(t.hex()?)?),
+            "reasonown" => Op::ReasonOwned(utf8(t.hex()?)?),
+            "chunk" => {
+                let ssrc = t.num()?;
+                let n: usize = t.num()?;
+                let mut items = vec![];
+                for _ in 0..n {
+                    items.push(parse_item_hist(t)?);
+                }
+                Op::Chunk(ssrc, items)
+            }
+            "count" => Op::Count(t.num()?),
+            "sender" => Op::Sender(t.num()?),
+            "media" => Op::Media(t.num()?),
+            s => return Err(format!("bad op {}", s)),
+        });
+    }
+    Ok(ops)
+}
+
+/// run the finished builder through the chosen wrapper and observe size and bytes
+fn finish<'a, B>(wrap: &str, b: B, into_pb: impl FnOnce(B) -> PacketBuilder<'a>) -> Result<Kvs, String>
+where
+    B: RtcpPacketWriter + 'a,
+{
+    match wrap {
+        "d" => observe(&b),
+        "pb" => observe(&into_pb(b)),
+        "comp" => observe(&Compound::builder().add_packet(b)),
+        s => Err(format!("bad wrap {}", s)),
+    }
+}
+
+fn observe(w: &dyn W) -> Result<Kvs, String> {
+    let size = guard(|| w.calc());
+    let n = match &size {
+        Ok(Ok(n)) => *n,
+        _ => 0,
+    };
+    let mut buf = vec![0xaau8; n];
+    let r = guard(|| w.write(&mut buf));
+    let size_obs = match size {
+        Ok(Ok(n)) => crate::ok(Obs::I(n)),
+        Ok(Err(e)) => crate::err(crate::werr(&e)),
+        Err(()) => Obs::S("PANIC"),
+    };
+    Ok(vec![
+        ("size".to_string(), size_obs),
+        ("writes".to_string(), Obs::L(vec![Obs::L(vec![wres(r), Obs::B(buf)])])),
+    ])
+}
+
+fn item_from_hist(h: &ItemHist) -> SdesItemBuilder<'_> {
+    let mut b = SdesItem::builder(h.ty, h.value.as_str());
+    for op in h.ops.iter() {
+        b = match op {
+            ItemOp::Prefix(p) => b.prefix(p.as_slice()),
+            ItemOp::IntoOwned => b.into_owned(),
+        };
+    }
+    b
+}
+
+pub fn run_hist(t: &mut Toks) -> Result<Kvs, String> {
+    let wrap = t.next()?;
+    let init = match t.next()? {
+        "sr" => Init::Sr(t.num()?),
+        "rr" => Init::Rr(t.num()?),
+        "app" => Init::App(t.num()?, utf8(t.hex()?)?),
+        "bye" => Init::Bye,
+        "sdes" => Init::Sdes,
+        "unk" => Init::Unk(t.num()?, t.hex()?),
+        "fb" => {
+            let transport = match t.next()? {
+                "t" => true,
+                "p" => false,
+                s => return Err(format!("bad kind {}", s)),
+            };
+            let owned = match t.next()? {
+                "own" => true,
+                "bor" => false,
+                s => return Err(format!("bad fci ownership {}", s)),
+            };
+            Init::Fb { transport, owned, fci: parse_fci_hist(t)? }
+        }
+        s => return Err(format!("bad hist init {}", s)),
+    };
+    let ops = parse_ops(t)?;
+    let _ = unhex;
+    match &init {
+        Init::Sr(ssrc) => {
+            let mut b = SenderReport::builder(*ssrc);
+            for op in ops.iter() {
+                b = match op {
+                    Op::Pad(p) => b.padding(*p),
+                    Op::Ntp(v) => b.ntp_timestamp(*v),
+                    Op::Rtp(v) => b.rtp_timestamp(*v),
+                    Op::Pc(v) => b.packet_count(*v),
+                    Op::Oc(v) => b.octet_count(*v),
+                    Op::Rb(rb) => b.add_report_block(rb.builder()),
+                    _ => b,
+                };
+            }
+            finish(wrap, b, PacketBuilder::from)
+        }
+        Init::Rr(ssrc) => {
+            let mut b = ReceiverReport::builder(*ssrc);
+            for op in ops.iter() {
+                b = match op {
+                    Op::Pad(p) => b.padding(*p),
+                    Op::Rb(rb) => b.add_report_block(rb.builder()),
+                    _ => b,
+                };
+            }
+            finish(wrap, b, PacketBuilder::from)
+        }
+        Init::App(ssrc, name) => {
+            let mut b = App::builder(*ssrc, name.as_str());
+            for op in ops.iter() {
+                b = match op {
+                    Op::Pad(p) => b.padding(*p),
+                    Op::Subtype(v) => b.subtype(*v),
+                    Op::Data(d) => b.data(d.as_slice()),
+                    _ => b,
+                };
+            }
+            finish(wrap, b, PacketBuilder::from)
+        }
+        Init::Bye => {
+            let mut b = Bye::builder();
+            for op in ops.iter() {
+                b = match op {
+                    Op::Pad(p) => b.padding(*p),
+                    Op::Src(s) => b.add_source(*s),
+                    Op::Reason(r) => b.reason(r.as_str()),
+                    Op::ReasonOwned(r) => b.reason_owned(r.as_str()),
+                    _ => b,
+                };
+            }
+            finish(wrap, b, PacketBuilder::from)
+        }
+        Init::Sdes => {
+            let mut b = Sdes::builder();
+            for op in ops.iter() {
+                b = match op {
+                    Op::Pad(p) => b.padding(*p),
+                    Op::Chunk(ssrc, items) => {
+                        let mut c = SdesChunk::builder(*ssrc);
+                        for it in items.iter() {
+                            c = if it.add_owned {
+                                c.add_item_owned(item_from_hist(it))
+                            } else {
+                                c.add_item(item_from_hist(it))
+                            };
+                        }
+                        b.add_chunk(c)
+                    }
+                    _ => b,
+                };
+            }
+            finish(wrap, b, PacketBuilder::from)
+        }
+        Init::Unk(ty, data) => {
+            let mut b = Unknown::builder(*ty, data.as_slice());
+            for op in ops.iter() {
+                b = match op {
+                    Op::Pad(p) => b.padding(*p),
+                    Op::Count(v) => b.count(*v),
+                    _ => b,
+                };
+            }
+            finish(wrap, b, PacketBuilder::from)
+        }
+        Init::Fb { transport, owned, fci } => {
+            // build the FCI builder first (its own history), keep it alive for the borrowed variant
+            let nack;
+            let fir;
+            let sli;
+            let rpsi;
+            let pli;
+            macro_rules! fb_run {
+                ($fci:expr, $fcity:ty) => {{
+                    if *transport {
+                        let mut b = if *owned {
+                            TransportFeedback::builder_owned($fci)
+                        } else {
+                            return fb_borrowed_t(wrap, &$fci, &ops);
+                        };
+                        for op in ops.iter() {
+                            b = match op {
+                                Op::Pad(p) => b.padding(*p),
+                                Op::Sender(v) => b.sender_ssrc(*v),
+                                Op::Media(v) => b.media_ssrc(*v),
+                                _ => b,
+                            };
+                        }
+                        finish(wrap, b, PacketBuilder::from)
+                    } else {
+                        let mut b = if *owned {
+                            PayloadFeedback::builder_owned($fci)
+                        } else {
+                            return fb_borrowed_p(wrap, &$fci, &ops);
+                        };
+                        for op in ops.iter() {
+                            b = match op {
+                                Op::Pad(p) => b.padding(*p),
+                                Op::Sender(v) => b.sender_ssrc(*v),
+                                Op::Media(v) => b.media_ssrc(*v),
+                                _ => b,
+                            };
+                        }
+                        finish(wrap, b, PacketBuilder::from)
+                    }
+                }};
+            }
+            match fci {
+                FciHist::Nack(v) => {
+                    nack = crate::nack_builder(v);
+                    fb_run!(nack, NackBuilder)
+                }
+                FciHist::Fir(v) => {
+                    fir = crate::fir_builder(v);
+                    fb_run!(fir, FirBuilder)
+                }
+                FciHist::Sli(v) => {
+                    sli = crate::sli_builder(v);
+                    fb_run!(sli, SliBuilder)
+                }
+                FciHist::Pli => {
+                    pli = Pli::builder();
+                    fb_run!(pli, PliBuilder)
+                }
+                FciHist::Rpsi(rops) => {
+                    // the owned feedback builder needs a 'static FCI builder: finish with an owned step
+                    let mut b: RpsiBuilder<'static> = Rpsi::builder().native_data_owned(Vec::<u8>::new(), 0);
+                    // re-create the default state exactly: payload_type 0, empty string, overrun 0
+                    b = b.payload_type(0);
+                    for op in rops.iter() {
+                        b = match op {
+                            RpsiOp::Pt(v) => b.payload_type(*v),
+                            RpsiOp::Data(d, ov) => b.native_data(d.clone(), *ov),
+                            RpsiOp::DataOwned(d, ov) => b.native_data_owned(d.as_slice(), *ov),
+                        };
+                    }
+                    rpsi = b;
+                    fb_run!(rpsi, RpsiBuilder)
+                }
+            }
+        }
+    }
+}
+
+fn fb_borrowed_t<'a, F: FciBuilder<'a>>(wrap: &str, fci: &'a F, ops: &[Op]) -> Result<Kvs, String> {
+    let mut b = TransportFeedback::builder(fci);
+    for op in ops.iter() {
+        b = match op {
+            Op::Pad(p) => b.padding(*p),
+            Op::Sender(v) => b.sender_ssrc(*v),
+            Op::Media(v) => b.media_ssrc(*v),
+            _ => b,
+        };
+    }
+    finish(wrap, b, PacketBuilder::from)
+}
+fn fb_borrowed_p<'a, F: FciBuilder<'a>>(wrap: &str, fci: &'a F, ops: &[Op]) -> Result<Kvs, String> {
+    let mut b = PayloadFeedback::builder(fci);
+    for op in ops.iter() {
+        b = match op {
+            Op::Pad(p) => b.padding(*p),
+            Op::Sender(v) => b.sender_ssrc(*v),
+            Op::Media(v) => b.media_ssrc(*v),
+            _ => b,
+        };
+    }
+    finish(wrap, b, PacketBuilder::from)
 }
